@@ -260,7 +260,7 @@ func checkSemanticValidation(c *Ctx, p *packages.Package) {
 
 // skeleton renders the control skeleton of a mapper: Get indices, asserted types (package-specific node/automaton types
 // abstracted), conditions, error formats, return flags.
-func skeleton(p *packages.Package, fd *ast.FuncDecl) []string {
+func mapperSkeleton(p *packages.Package, fd *ast.FuncDecl) []string {
 	info := p.TypesInfo
 	var out []string
 	abstractType := func(t types.Type) string {
@@ -345,7 +345,7 @@ func checkSiblingMappers(c *Ctx, rule string) {
 			c.Fail(rule, "sibling mappers "+m+" exist in both routes", token.NoPos, "one route lacks the mapper")
 			continue
 		}
-		sa, sb := skeleton(np, a), skeleton(ap, b)
+		sa, sb := mapperSkeleton(np, a), mapperSkeleton(ap, b)
 		same := strings.Join(sa, "\n") == strings.Join(sb, "\n")
 		diff := ""
 		if !same {
